@@ -123,6 +123,12 @@ pub fn write_txn(rng: &mut Rng, a: u8, nkeys: u16, tags: &mut TagGen, max_writes
 				steps.push(Step::SoftDelete { a, k, ts: None });
 				left -= 60;
 			}
+			2 => {
+				let len = value_len(rng).min(left - 60).max(8);
+				let v = tags.next(len);
+				steps.push(Step::Replace { a, k, v });
+				left = left.saturating_sub(60 + len);
+			}
 			_ => {
 				let len = value_len(rng).min(left - 60).max(8);
 				let v = tags.next(len);
